@@ -3,6 +3,8 @@ from props_common import BASE_TB
 PROP = {
     "modules": ["YorkieModel.Props.C01", "YorkieModel.Props.C01Text"],
     "engines": [
+        # structure-preserving tree edits (text inside one element, whole-element insert/delete, style) by 2-4 replicas, op-fed into Model/Tree.lean
+        {"name": "tree", "args": ["stream=random", "pool=bmp", "orc=c01"], "quick": {"n": 2000, "workers": 8}, "thorough": {"n": 60000, "workers": 14}},
         # integrated engine: real client SDK + real in-process server (memory DB), traffic captured at the HTTP transport
         {"name": "srv", "args": ["orc=c01"], "quick": {"n": 480, "workers": 8}, "thorough": {"n": 12000, "workers": 14}},
         # oracle-only: replicas that edit before SetActor/Attach (known finding c01-pre-attach-edit)
@@ -18,10 +20,10 @@ PROP = {
         "Primitive.Marshal() text is taken from the implementation as an opaque token (the model stores the marshalled form of primitives)",
     ],
     "level_text": "Machine-checked strong convergence for objects, arrays (insert, delete, move, set-by-index) and counters with GC off: for any number of clients, any program and any interleaving of edit/push/pull steps, every replica equals the fold of the server log prefix it has seen plus its own pending operations, quiescent replicas are equal heaps and marshal identically, and the server rebuild never meets a failing operation (Convergence.lean instantiated through 16 lemma files proving commutation of every pair of independent operations). Tied to the code per operation: every operation of every change of generated multi-replica histories is replayed by the model and Marshal() compared on every replica after every step. Text (Props/C01Text.lean): the same system theorem instantiated on a character-level abstraction of the block list (text_laws, text_converge_quiescent), tied to the block model of Model/Text.lean by text_enabled_means_call_ok and lifted to replicas that hold block lists and run the Go calls in their own arrival order (text_block_replicas_converge: equal abs, visible text, String() and Marshal(); text_block_no_call_fails); removedAt_diverges shows the block list itself (tombstone tickets) does not converge, only what is observable.",
-    "level_note": "Trusted: Lean kernel; the hand-written model as far as the crdt engine exercises it; the delivery discipline (C04) and ticket uniqueness (C06) enter as the system model's step rules. Not covered by a theorem: text changes carrying several Text operations (one Text op per change in the theorem), tree (C19), histories with GC on (C03), documents edited before Attach (known finding of C01/C06: SetActor does not rewrite identities).",
+    "level_note": "Trusted: Lean kernel; the hand-written model as far as the crdt engine exercises it; the delivery discipline (C04) and ticket uniqueness (C06) enter as the system model's step rules. Not covered by a theorem: text changes carrying several Text operations (one Text op per change in the theorem), tree convergence beyond the C19 matrix (correspondence + oracle only), histories with GC on (C03), documents edited before Attach (known finding of C01/C06: SetActor does not rewrite identities).",
     "technique": "Lean 4 proof (pairwise commutation + reorder lemma + system invariant) + op-fed differential replay",
     "partial": ["text: convergence proved for one Text operation per change, a single Text element, no GC, anchors (t, offset 0) with t != head excluded by Pre (split-order dependent in Go); the ghost fields seq/deps are argued, not proved, to annotate every real history",
-                "tree (structure-preserving subset): not modelled",
+                "tree (structure-preserving subset): modelled (Model/Tree.lean) and tied by the random stream of the `tree` engine (every operation replayed on clone and root of every replica, convergence oracle); no convergence THEOREM beyond the finite matrix of C19 (Props/C19.lean) and the well-formedness invariant wf_invariant_op",
                 "GC on: see C03"],
     "not_modelled": ["dedup counters (HLL)", "undo/redo produced operations (C14/C15)", "edits made before Attach"],
     "assumptions": ["replicas attach (SetActor) before their first edit", "GC disabled (no version vector handed to ApplyChangePack)"],
